@@ -9,6 +9,7 @@ import (
 	"context"
 	"fmt"
 	"math/rand"
+	"sync"
 	"time"
 
 	"github.com/pingcap/kvproto/pkg/metapb"
@@ -346,4 +347,96 @@ func (w *world) foreignSweep(l, kind int, rng *rand.Rand) {
 		cancel()
 	}
 	r.Count("foreign_id_sweeps", 1)
+}
+
+// sideTraffic drives other RPC kinds while the bootstrap race runs: IsBootstrapped and
+// GetClusterConfig with the right cluster id (a "true" answer must be backed by a stored cluster
+// record), and IsBootstrapped / GetClusterConfig / PutClusterConfig / PutStore / StoreHeartbeat /
+// AllocID / RegionHeartbeat with a foreign cluster id, which must be refused at every moment of
+// the bootstrap, not only on a settled cluster.
+func (w *world) sideTraffic(l int, done chan struct{}, wg *sync.WaitGroup) {
+	r := w.r
+	apis := []struct {
+		name string
+		api  unaryAPI
+	}{{"direct", w.ms[l].Srv}, {"grpc", viaGRPC{w.pd(l, 1)}}}
+	for i := range apis {
+		ai := i
+		a := apis[ai]
+		wg.Add(1)
+		go func() {
+			defer wg.Done()
+			fid := w.id + 1 + uint64(ai)
+			if ai == 1 {
+				fid = 0
+			}
+			right := &pdpb.RequestHeader{ClusterId: w.id}
+			foreign := &pdpb.RequestHeader{ClusterId: fid}
+			for n := 0; n < 3000; n++ {
+				ctx, cancel := context.WithTimeout(context.Background(), 60*time.Second)
+				if resp, err := a.api.IsBootstrapped(ctx, &pdpb.IsBootstrappedRequest{Header: right}); err == nil && resp.GetHeader().GetError() == nil {
+					r.Count("side_is_bootstrapped_answers", 1)
+					if resp.Bootstrapped && !w.rootExists() {
+						r.Violation("is-bootstrapped:true-without-cluster-record", "IsBootstrapped answered true while no cluster record was stored", w.witness(map[string]interface{}{"via": a.name}))
+					}
+				}
+				if resp, err := a.api.GetClusterConfig(ctx, &pdpb.GetClusterConfigRequest{Header: right}); served(resp, err) {
+					r.Count("side_get_cluster_config_served", 1)
+				}
+				st, _ := w.variantOf(w.shared[0], w.shared[1], w.shared[2], false)
+				calls := []struct {
+					name string
+					f    func() (hdrResp, error)
+				}{
+					{"IsBootstrapped", func() (hdrResp, error) {
+						return a.api.IsBootstrapped(ctx, &pdpb.IsBootstrappedRequest{Header: foreign})
+					}},
+					{"GetClusterConfig", func() (hdrResp, error) {
+						return a.api.GetClusterConfig(ctx, &pdpb.GetClusterConfigRequest{Header: foreign})
+					}},
+					{"PutClusterConfig", func() (hdrResp, error) {
+						return a.api.PutClusterConfig(ctx, &pdpb.PutClusterConfigRequest{Header: foreign, Cluster: &metapb.Cluster{Id: fid, MaxPeerCount: 7}})
+					}},
+					{"PutStore", func() (hdrResp, error) { return a.api.PutStore(ctx, &pdpb.PutStoreRequest{Header: foreign, Store: st}) }},
+					{"StoreHeartbeat", func() (hdrResp, error) {
+						return a.api.StoreHeartbeat(ctx, &pdpb.StoreHeartbeatRequest{Header: foreign, Stats: &pdpb.StoreStats{StoreId: st.Id, Capacity: 1 << 40, Available: 1 << 39}})
+					}},
+					{"AllocID", func() (hdrResp, error) { return a.api.AllocID(ctx, &pdpb.AllocIDRequest{Header: foreign}) }},
+				}
+				for _, c := range calls {
+					resp, err := c.f()
+					r.Count("side_foreign_id_requests", 1)
+					if served(resp, err) {
+						r.Violation("foreign-cluster-id-served:"+c.name, fmt.Sprintf("%s with cluster id %d was served by a cluster whose id is %d while it was being bootstrapped (%s)", c.name, fid, w.id, a.name),
+							w.witness(map[string]interface{}{"rpc": c.name, "via": a.name, "foreign_id": fid, "during": "bootstrap race"}))
+					}
+				}
+				cancel()
+				select {
+				case <-done:
+					return
+				default:
+				}
+				time.Sleep(500 * time.Microsecond)
+			}
+		}()
+	}
+	// one region heartbeat stream with a foreign id, opened while the race runs
+	wg.Add(1)
+	go func() {
+		defer wg.Done()
+		ctx, cancel := context.WithTimeout(context.Background(), 5*time.Second)
+		defer cancel()
+		s, err := w.pd(l, 0).RegionHeartbeat(ctx)
+		if err != nil {
+			return
+		}
+		_, rg := w.variantOf(w.shared[0], w.shared[1], w.shared[2], false)
+		s.Send(&pdpb.RegionHeartbeatRequest{Header: &pdpb.RequestHeader{ClusterId: w.id + 1}, Region: rg, Leader: rg.Peers[0]})
+		if resp, err := s.Recv(); (err != nil && ctx.Err() == nil) || (err == nil && resp.GetHeader().GetError() != nil) {
+			r.Count("side_foreign_region_heartbeat_refused", 1)
+		} else {
+			r.Count("side_foreign_region_heartbeat_no_refusal_seen_not_judged", 1)
+		}
+	}()
 }
